@@ -64,7 +64,7 @@ type c17 struct{}
 func init()            { core.Register(c17{}) }
 func (c17) ID() string { return "C17" }
 
-var c17Kinds = []string{"Seal", "Open", "Encrypt", "Decrypt", "NewCipher", "NewGCM", "SignHashed", "VerifyHashed", "Verify", "DerivePublic", "GenerateKey", "SM3", "CheckOnCurve"}
+var c17Kinds = []string{"Seal", "Open", "Encrypt", "Decrypt", "NewCipher", "NewGCM", "SignHashed", "VerifyHashed", "Verify", "DerivePublic", "GenerateKey", "SM3", "CheckOnCurve", "SM3Fork"}
 
 func (c17) Plan(tier string) core.Plan {
 	if L2Enabled {
@@ -107,7 +107,11 @@ func (c17) Generate(idx int, r *core.Rand, tier string) core.Script {
 		s.AEADs = append(s.AEADs, genAEADSpec(w))
 	}
 	for i := w.Range(1, 2); i > 0; i-- {
-		s.Msgs = append(s.Msgs, c10Buf{Len: c10GenLen(w), Seed: w.Uint64()})
+		l := c10GenLen(w)
+		if w.Chance(1, 12) { // beyond a kilobyte: bulk paths
+			l = w.PickInt(4096, 4097, 5000, 8192, 9000)
+		}
+		s.Msgs = append(s.Msgs, c10Buf{Len: l, Seed: w.Uint64()})
 	}
 	for i := w.Range(1, 2); i > 0; i-- {
 		s.AADs = append(s.AADs, c10Buf{Len: w.PickInt(0, 1, 13, 16, 33, 100), Seed: w.Uint64()})
@@ -157,6 +161,13 @@ func (c17) Generate(idx int, r *core.Rand, tier string) core.Script {
 				ki = focus
 			}
 			op := c17Op{Kind: c17Kinds[ki], A: w.Intn(len(s.AEADs)), M: w.Intn(len(s.Msgs)), D: w.Intn(len(s.AADs)), C: w.Intn(s.NSealed), K: w.Intn(s.NKeys), Seed: w.Uint64()}
+			if op.Kind == "SM3Fork" {
+				if t < 2 {
+					op.A = t
+				} else {
+					op.Kind = "SM3"
+				}
+			}
 			switch op.Kind {
 			case "Seal":
 				op.Dst = genDst(w, s.Msgs[op.M].Len+s.AEADs[op.A].TagSize, false)
@@ -211,6 +222,9 @@ type c17World struct {
 	es     [][]byte
 	rs, ss [][]byte
 	ids    [][]byte
+	// forks: a hash value and a by-value copy of it taken in mid-stream (after more than one
+	// block), each continued by one task only: independent hash values that share a history
+	forks [2]*sm3.SM3
 }
 
 func (w *c17World) buffers() (names []string, bufs [][]byte, roles []string) {
@@ -268,6 +282,11 @@ func c17Build(s *c17Script, asm bool) *c17World {
 	}
 	for i := 0; i < 2; i++ {
 		w.blk16 = append(w.blk16, cloneSlack(seededBytes(s.KeySeed^uint64(0x200+i), 16, false)))
+	}
+	if h0, ok := sm3.New().(*sm3.SM3); ok {
+		h0.Write(seededBytes(s.KeySeed^0x300, 100, false))
+		c := *h0
+		w.forks[0], w.forks[1] = h0, &c
 	}
 	kr := core.NewRand(s.KeySeed)
 	for i := 0; i < s.NKeys; i++ {
@@ -357,6 +376,16 @@ func c17Run(op c17Op, w *c17World, yield func(site int)) (out string) {
 	case "GenerateKey":
 		d, x, y, err := sm2.GenerateKey(rng.New(rng.Content{TailSeed: op.Seed}, nil, nil))
 		return "genkey:" + core.Hex8(append(append(append([]byte{}, d...), x...), y...)) + tf(err != nil)
+	case "SM3Fork":
+		// op.A selects the fork; the generator gives fork i to task i only
+		h := w.forks[op.A&1]
+		if h == nil {
+			return "fork-unavailable"
+		}
+		m := w.msgs[op.M%len(w.msgs)]
+		h.Write(m)
+		yield(1503)
+		return "fork:" + core.Hex8(h.Sum(nil))
 	case "SM3":
 		h := sm3.New()
 		m := w.msgs[op.M%len(w.msgs)]
